@@ -55,16 +55,18 @@ BUDGET = {'quick': 3000, 'thorough': 40000}
 TOLERANCES = {
     'fd': 'min_k |q(h_k) - D(d)|_max <= 256*eps^(2/3)*S, S = max(|D(d)|, '
           '|q|, |op(x)|)_max; h_k = h0*r^-k, k = 0..5 (float64: h0=2^-3, '
-          'r=8; float32: h0=2^-2, r=4), base point and direction normalised '
+          'r=8; float32: h0=2^-2, r=4; up to 4 more steps while the error '
+          'still falls at second order), base point and direction normalised '
           'to max-norm <= 2 resp. 1; 256*eps^(2/3) = 9.5e-9 (float64), '
           '6.2e-3 (float32); observed on the unchanged tree: <= 19*eps^(2/3)*S',
     'order': 'best slope log(e_j/e_min)/log(h_j/h_min) over j before the '
              'minimum >= 1.5, unless e_0 <= 1e4*eps*S (difference quotient '
              'exact: affine / quadratic maps)',
     'linear': '|D(a d1 + c d2) - a D(d1) - c D(d2)|_max <= 256*eps*(|a| '
-              '|D d1| + |c| |D d2|)',
-    'self-derivative': '|D(d) - op(d)|_max <= 64*eps*|op(d)|_max for '
-                       'operators flagged linear',
+              'max(|D d1|, S) + |c| max(|D d2|, S)), S the scale of the '
+              'ladder (D(d) may be a cancelling sum of terms of that size)',
+    'self-derivative': '|D(d) - op(d)|_max <= 64*eps*max(|op(d)|, |op(x)|) '
+                       'for operators flagged linear',
     'affine-matrix': 'matrix of D equals matrix of op (flat.opmatrix) up to '
                      '256*eps*max|M|, real dimension <= 24',
     'margin': 'base points (and every intermediate value inside a tree) stay '
@@ -614,7 +616,9 @@ def _ladder(eps):
 
 
 def fd_errors(env, b, D, x, d, eps):
-    """(errors e_k, hs, S, Dd) of the central-difference ladder."""
+    """(errors e_k, hs, S, Dd) of the central-difference ladder.  The ladder
+    is prolonged (up to 4 more steps) while the error still falls at second
+    order at its end, i.e. while truncation dominates (stiff maps)."""
     dom, ran = b.node['dom'], b.node['ran']
     Dd_el = D(env.element(dom, d))
     if Dd_el not in env.set(ran):
@@ -624,9 +628,12 @@ def fd_errors(env, b, D, x, d, eps):
     Dd = ex.to_np(Dd_el, env.set(ran))
     fx = _eval(env, b, x)
     S = max(ex.vmaxabs(Dd), ex.vmaxabs(fx), 1e-300)
-    errs, hs = [], _ladder(eps)
+    errs, hs = [], list(_ladder(eps))
+    ratio = hs[0] / hs[1]
     qmax = 0.0
-    for h in hs:
+    k = 0
+    while k < len(hs):
+        h = hs[k]
         xp = ex.vadd(x, ex.vscale(h, d))
         xm = ex.vsub(x, ex.vscale(h, d))
         fp, fm = _eval(env, b, xp), _eval(env, b, xm)
@@ -634,6 +641,10 @@ def fd_errors(env, b, D, x, d, eps):
         qmax = max(qmax, ex.vmaxabs(q) if ex.vfinite(q) else 0.0)
         e = ex.vmaxabs(ex.vsub(q, Dd)) if ex.vfinite(q) else np.inf
         errs.append(e)
+        k += 1
+        if k == len(hs) and k < 10 and len(errs) >= 2 and \
+                errs[-1] > 0 and errs[-2] / errs[-1] >= ratio ** 1.5:
+            hs.append(hs[-1] / ratio)
     S = max(S, qmax)
     return errs, hs, S, Dd
 
@@ -799,6 +810,14 @@ def run_case(desc):
     depth = ex.tree_depth(tree)
     reg = _region(env, tree)
 
+    # region of known finding C04-K4 (evaluation overwrites its argument):
+    # the difference quotient would be meaningless
+    for n in ex.tree_nodes(tree):
+        if n['op'] in ('addvec', 'addscal') and \
+                ex.tinfo(types, n['ran']).cat != 'field' and \
+                ex.aliases_input(n['a']):
+            return Outcome('excluded', strata=['excluded:C04-K4'])
+
     try:
         root = ex.build(env, tree)
     except ex.BuildFailure as bf:
@@ -930,7 +949,8 @@ def run_case(desc):
                           env.set(ran))
             od = _eval(env, root, d)
             err = ex.vmaxabs(ex.vsub(Dd, od))
-            if not err <= 64 * eps * max(ex.vmaxabs(od), 1e-300) + 1e-300:
+            if not err <= 64 * eps * max(ex.vmaxabs(od), ex.vmaxabs(fx),
+                                         1e-300) + 1e-300:
                 culprit = _linear_culprit(env, root)
                 raise Violation('C06|self-derivative|{}|{}'.format(
                     _site(culprit), _region(env, culprit.node)),
@@ -940,9 +960,11 @@ def run_case(desc):
         strata.append('linear-flagged')
 
     # ladder ----------------------------------------------------------------
+    Smax = 0.0
     for i, d in enumerate(dirs):
         errs, hs, S, Dd = guard(lambda: fd_errors(env, root, D, x, d, eps),
                                 'deriv-call', d)
+        Smax = max(Smax, S)
         verdict = judge(errs, hs, S, eps)
         if verdict is not None:
             culprit = _localise(env, root, x, eps, 'fd')
@@ -963,8 +985,10 @@ def run_case(desc):
                             'deriv-call', v), env.set(ran))
              for v in (d1, d2, comb)]
         expect = ex.vadd(ex.vscale(a, y[0]), ex.vscale(c, y[1]))
-        tol = 256 * eps * (abs(a) * ex.vmaxabs(y[0]) +
-                           abs(c) * ex.vmaxabs(y[1])) + 1e-300
+        # (scale: the ladder's S as well -- D(d) may be a cancelling sum of
+        # terms of that size)
+        tol = 256 * eps * (abs(a) * max(ex.vmaxabs(y[0]), Smax) +
+                           abs(c) * max(ex.vmaxabs(y[1]), Smax)) + 1e-300
         err = ex.vmaxabs(ex.vsub(y[2], expect))
         if not err <= tol:
             raise Violation('C06|deriv-nonlinear|{}|{}'.format(site, reg),
